@@ -111,6 +111,7 @@ theorem doCmd_stepEvs (s : Sim) (c : Cmd) : stepEvs (doCmd s c).pending = stepEv
     apply stepEvs_map_user
     · intro e; split <;> rfl
     · intro e he; simp [he]
+  | halt => rfl
 
 theorem foldl_doCmd_stepEvs (s : Sim) (cs : List Cmd) :
     stepEvs (cs.foldl doCmd s).pending = stepEvs s.pending := by
